@@ -25,7 +25,7 @@ TIME_LIMIT = {"quick": 30, "thorough": 300}
 SHARDS = 16
 REACH = {
     "quick": {"crc_compared": 20000, "digest_compared": 20000, "unknown_names_rejected": 300,
-              "table_indices_hit": 256, "non_ascii_texts": 3000, "canonical_form_texts": 1000, "apache_fingerprints": 12},
+              "table_indices_hit": 256, "non_ascii_texts": 3000, "long_non_ascii_texts": 100, "canonical_form_texts": 1000, "apache_fingerprints": 12},
     "thorough": {"crc_compared": 1000000},
 }
 APACHE = {'"null"': 7195948357588979594, '"boolean"': -6970731678124411036, '"int"': 8247732601305521295,
@@ -47,6 +47,13 @@ def coverage_extra(tier, counters):
 
 def rand_text(rng):
     x = rng.random()
+    if x < 0.02:
+        # long texts around buffer-size boundaries (canonical forms of big schemas are this long)
+        n = rng.choice([4095, 4096, 4097, 8191, 8192, 8193, 12000, 16384, 20000])
+        c = rng.choice(["a", "\u00e9", "\u20ac", "\ufb01", "\U0001f600"])
+        if rng.random() < 0.5:
+            return c * n
+        return "".join(rng.choice(["a", "Z", c, c, "\u0416"]) for _ in range(n))
     n = rng.choice([0, 1, 2, 3, 5, 8, 13, 40, 200]) if x < 0.8 else rng.randint(0, 60)
     cls = rng.random()
     out = []
@@ -80,6 +87,8 @@ def check_text(sh, fa_fp, algos, text, seen_idx, rng, every_algo=False):
     sh.count("crc_compared")
     if not text.isascii():
         sh.count("non_ascii_texts")
+        if len(text) >= 4095:
+            sh.count("long_non_ascii_texts")
     for a in (algos if every_algo else rng.sample(algos, 3)):
         name = {"MD5": "md5", "SHA-256": "sha256"}.get(a, a)
         want = hashlib.new(name, data).hexdigest()
